@@ -101,6 +101,8 @@ def run(chk):
         text = tablegen.pass_table_text(entries, rules)
         if r.chance(0.7):
             text += "\n".join(nasty_rules(r, letters, cellvals)) + "\n"
+        if r.chance(0.4):
+            text += "\n".join(tablegen.gen_group_swap_rules(r, letters, cellvals)) + "\n"
         exotic = r.chance(0.4)
         if exotic:
             text += "\n".join(exotic_rules(r, letters)) + "\n"
